@@ -1465,6 +1465,8 @@ class StorageBackendBase(StorageBackend, ABC):
         )
 
     def is_all_memoized(self, fns: Iterable[FunctionReferenceWithArguments]) -> bool:
+        # (the calls are looked at twice: keep what a one-shot iterable yields)
+        fns = list(fns)
         if self._memory_cache:
             if self._memory_cache.is_all_memoized(fns):
                 return True
